@@ -11,7 +11,7 @@
    deletion / garbage collection / swaps.  The step that IS proved towards it is C09_reorder_keeps_cache_partial. *)
 From Coq Require Import ZArith List Lia Permutation.
 From OVM Require Import Kernel.State Kernel.Ops Kernel.Mirror Kernel2.LookupModel Kernel2.ListAux
-                        Kernel2.AdjacentProofs Kernel2.RotationProofs Kernel.Closure Kernel2.ReorderExact.
+                        Kernel2.AdjacentProofs Kernel2.RotationProofs Kernel.Closure Kernel.InvB Kernel2.ReorderExact.
 Import ListNotations.
 Local Open Scope nat_scope.
 
